@@ -121,7 +121,8 @@ class TLCResult:
 
 
 def tlc(module, cfg=None, cwd=SPEC, workers=4, simulate=None, depth=None, coverage=False, env=None,
-        timeout=900, xmx="4g", deque=False, name=None, extra=None, fp_seed=True, allow_violation=False):
+        timeout=900, xmx="4g", deque=False, name=None, extra=None, fp_seed=True, allow_violation=False,
+        seed_override=None):
     """Run TLC on spec/<module>.tla with <cfg>.  Returns TLCResult.  Raises ToolError on tool
     failures (parse error, timeout, evaluation error) unless allow_violation and it is an invariant
     violation."""
@@ -143,7 +144,7 @@ def tlc(module, cfg=None, cwd=SPEC, workers=4, simulate=None, depth=None, covera
     if depth:
         cmd += ["-depth", str(depth)]
     if simulate or fp_seed:
-        cmd += ["-seed", str(seed())]
+        cmd += ["-seed", str(seed_override if seed_override is not None else seed())]
     if coverage:
         cmd += ["-coverage", "1"]
     if extra:
